@@ -12,14 +12,14 @@ open Claripy.Props.C05 (eval_width)
 /-! ### `Bit` equality -/
 theorem Bit.eq_of_beq : ∀ (a b : Bit), Bit.beq a b = true → a = b
   | .c a, .c b, h => by simp [Bit.beq] at h; rw [h]
-  | .of t i, .of u j, h => by
+  | .of t i ng, .of u j ng', h => by
     simp only [Bit.beq, Bool.and_eq_true, beq_iff_eq] at h
-    rw [h.1, h.2]
-  | .c _, .of _ _, h | .of _ _, .c _, h => by simp [Bit.beq] at h
+    rw [h.1.1, h.1.2, h.2]
+  | .c _, .of _ _ _, h | .of _ _ _, .c _, h => by simp [Bit.beq] at h
 
 theorem Bit.beq_refl : ∀ (a : Bit), Bit.beq a a = true
   | .c a => by simp [Bit.beq]
-  | .of t i => by simp [Bit.beq]
+  | .of t i ng => by simp [Bit.beq]
 
 instance : LawfulBEq Bit where
   eq_of_beq {a b} h := Bit.eq_of_beq a b h
@@ -28,8 +28,8 @@ instance : LawfulBEq Bit where
 /-! ### what a list of bits denotes -/
 def bitDen (env : Env) : Bit → Option Bool
   | .c b => some b
-  | .of t i => match eval env t with
-    | .bv _ n => some (n.testBit i)
+  | .of t i ng => match eval env t with
+    | .bv _ n => some (n.testBit i ^^ ng)
     | _ => none
 
 /-- all these terms denote bit-vectors -/
@@ -62,7 +62,7 @@ theorem describes_const (env : Env) (v w : Nat) (hw : 0 < w) :
     simp [List.getElem?_map, List.getElem?_range hi, bitDen, Nat.testBit_mod_two_pow, hi]
 
 theorem describes_opaque (env : Env) (e : Expr) (w : Nat) (hwd : e.width = some w) (hw : 0 < w) (w' n' : Nat)
-    (he : eval env e = .bv w' n') : Describes env ((List.range w).map fun i => Bit.of e i) w' n' := by
+    (he : eval env e = .bv w' n') : Describes env ((List.range w).map fun i => Bit.of e i false) w' n' := by
   have := eval_width env e w' n' he
   rw [hwd] at this
   cases this
@@ -137,6 +137,249 @@ theorem describes_append {env : Env} {lo hi : List Bit} {wl nl wh nh : Nat} (Dl 
     · rw [if_neg hlt, if_neg hlt, Dh.bit (i - wl) (by omega)]
       simp [show i - wl < wh by omega]
 
+theorem bitDen_not (env : Env) (b : Bit) : bitDen env b.not = (bitDen env b).map (!·) := by
+  cases b with
+  | c x => simp [Bit.not, bitDen]
+  | of t i ng =>
+    simp only [Bit.not, bitDen]
+    cases eval env t <;> simp
+
+theorem describes_not {env : Env} {b : List Bit} {wa na : Nat} (D : Describes env b wa na) :
+    Describes env (b.map Bit.not) wa (~~~ (BitVec.ofNat wa na)).toNat where
+  len := by simp [D.len]
+  pos := D.pos
+  lt := (~~~ (BitVec.ofNat wa na)).isLt
+  bit := by
+    intro i hi'
+    have h1 := D.bit i hi'
+    rw [List.getElem?_map, BitVec.testBit_toNat, BitVec.getLsbD_not, BitVec.getLsbD_ofNat]
+    cases hb : b[i]? with
+    | none => simp [hb] at h1
+    | some x =>
+      simp only [hb, Option.bind_some] at h1
+      simp [bitDen_not, h1, hi']
+
+theorem and?_den (env : Env) : ∀ (a b r : Bit), Bit.and? a b = some r → ∀ x y, bitDen env a = some x → bitDen env b = some y →
+    bitDen env r = some (x && y)
+  | .c false, b, r, h, x, y, ha, hb => by
+    simp only [Bit.and?, Option.some.injEq] at h; subst h
+    simp only [bitDen, Option.some.injEq] at ha; subst ha; rfl
+  | .c true, b, r, h, x, y, ha, hb => by
+    simp only [Bit.and?, Option.some.injEq] at h; subst h
+    simp only [bitDen, Option.some.injEq] at ha; subst ha; simpa using hb
+  | .of t i ng, .c false, r, h, x, y, ha, hb => by
+    simp only [Bit.and?, Option.some.injEq] at h; subst h
+    simp only [bitDen, Option.some.injEq] at hb; subst hb; simp [bitDen]
+  | .of t i ng, .c true, r, h, x, y, ha, hb => by
+    simp only [Bit.and?, Option.some.injEq] at h; subst h
+    simp only [bitDen, Option.some.injEq] at hb; subst hb; simpa using ha
+  | .of _ _ _, .of _ _ _, r, h, _, _, _, _ => by simp [Bit.and?] at h
+
+theorem or?_den (env : Env) : ∀ (a b r : Bit), Bit.or? a b = some r → ∀ x y, bitDen env a = some x → bitDen env b = some y →
+    bitDen env r = some (x || y)
+  | .c true, b, r, h, x, y, ha, hb => by
+    simp only [Bit.or?, Option.some.injEq] at h; subst h
+    simp only [bitDen, Option.some.injEq] at ha; subst ha; rfl
+  | .c false, b, r, h, x, y, ha, hb => by
+    simp only [Bit.or?, Option.some.injEq] at h; subst h
+    simp only [bitDen, Option.some.injEq] at ha; subst ha; simpa using hb
+  | .of t i ng, .c true, r, h, x, y, ha, hb => by
+    simp only [Bit.or?, Option.some.injEq] at h; subst h
+    simp only [bitDen, Option.some.injEq] at hb; subst hb; simp [bitDen]
+  | .of t i ng, .c false, r, h, x, y, ha, hb => by
+    simp only [Bit.or?, Option.some.injEq] at h; subst h
+    simp only [bitDen, Option.some.injEq] at hb; subst hb; simpa using ha
+  | .of _ _ _, .of _ _ _, r, h, _, _, _, _ => by simp [Bit.or?] at h
+
+theorem xor?_den (env : Env) : ∀ (a b r : Bit), Bit.xor? a b = some r → ∀ x y, bitDen env a = some x → bitDen env b = some y →
+    bitDen env r = some (x ^^ y)
+  | .c false, b, r, h, x, y, ha, hb => by
+    simp only [Bit.xor?, Option.some.injEq] at h; subst h
+    simp only [bitDen, Option.some.injEq] at ha; subst ha; simpa using hb
+  | .c true, b, r, h, x, y, ha, hb => by
+    simp only [Bit.xor?, Option.some.injEq] at h; subst h
+    simp only [bitDen, Option.some.injEq] at ha; subst ha; simp [bitDen_not, hb]
+  | .of t i ng, .c false, r, h, x, y, ha, hb => by
+    simp only [Bit.xor?, Option.some.injEq] at h; subst h
+    simp only [bitDen, Option.some.injEq] at hb; subst hb; simpa using ha
+  | .of t i ng, .c true, r, h, x, y, ha, hb => by
+    simp only [Bit.xor?, Option.some.injEq] at h; subst h
+    simp only [bitDen, Option.some.injEq] at hb; subst hb; simp [bitDen_not, ha]
+  | .of _ _ _, .of _ _ _, r, h, _, _, _, _ => by simp [Bit.xor?] at h
+
+theorem map_eq_one {β : Type} (f : Expr → β) {args : List Expr} {b : β} (h : args.map f = [b]) : ∃ a, args = [a] ∧ f a = b := by
+  cases args with
+  | nil => simp at h
+  | cons a rest =>
+    cases rest with
+    | nil => exact ⟨a, rfl, by simpa using h⟩
+    | cons _ _ => simp at h
+
+theorem map_eq_two {β : Type} (f : Expr → β) {args : List Expr} {b c : β} (h : args.map f = [b, c]) :
+    ∃ a s, args = [a, s] ∧ f a = b ∧ f s = c := by
+  cases args with
+  | nil => simp at h
+  | cons a rest =>
+    cases rest with
+    | nil => simp at h
+    | cons s rest2 =>
+      cases rest2 with
+      | nil => exact ⟨a, s, rfl, by simpa using h⟩
+      | cons _ _ => simp at h
+
+theorem map_eq_two_plus {β : Type} (f : Expr → β) {args : List Expr} {b c : β} {l : List β} (h : args.map f = b :: c :: l) :
+    ∃ a s more, args = a :: s :: more ∧ f a = b ∧ f s = c ∧ more.map f = l := by
+  cases args with
+  | nil => simp at h
+  | cons a rest =>
+    cases rest with
+    | nil => simp at h
+    | cons s rest2 => exact ⟨a, s, rest2, rfl, by simpa using h⟩
+
+/-- a bitwise operator followed bit by bit -/
+structure BitOp where
+  f : Bit → Bit → Option Bit
+  g : (w : Nat) → BitVec w → BitVec w → BitVec w
+  gb : Bool → Bool → Bool
+  hf : ∀ (env : Env) a b r, f a b = some r → ∀ x y, bitDen env a = some x → bitDen env b = some y → bitDen env r = some (gb x y)
+  hg : ∀ w (x y : BitVec w) i, (g w x y).getLsbD i = gb (x.getLsbD i) (y.getLsbD i)
+
+def opAnd : BitOp where
+  f := Bit.and?
+  g := fun _ x y => x &&& y
+  gb := (· && ·)
+  hf := and?_den
+  hg := by intro w x y i; exact BitVec.getLsbD_and
+
+def opOr : BitOp where
+  f := Bit.or?
+  g := fun _ x y => x ||| y
+  gb := (· || ·)
+  hf := or?_den
+  hg := by intro w x y i; exact BitVec.getLsbD_or
+
+def opXor : BitOp where
+  f := Bit.xor?
+  g := fun _ x y => x ^^^ y
+  gb := (· ^^ ·)
+  hf := xor?_den
+  hg := by intro w x y i; exact BitVec.getLsbD_xor
+
+theorem zipBits_length (f) : ∀ (a b r : List Bit), zipBits f a b = some r → a.length = b.length ∧ r.length = a.length
+  | [], [], r, h => by simp [zipBits] at h; subst h; simp
+  | x :: a, y :: b, r, h => by
+    simp only [zipBits] at h
+    cases hf : f x y with
+    | none => simp [hf] at h
+    | some z =>
+      cases hz : zipBits f a b with
+      | none => simp [hf, hz] at h
+      | some rs =>
+        simp only [hf, hz, Option.some.injEq] at h
+        subst h
+        have := zipBits_length f a b rs hz
+        simp [this.1, this.2]
+  | [], _ :: _, r, h => by simp [zipBits] at h
+  | _ :: _, [], r, h => by simp [zipBits] at h
+
+theorem zipBits_get (f) : ∀ (a b r : List Bit), zipBits f a b = some r → ∀ (i : Nat) (x y : Bit), a[i]? = some x → b[i]? = some y →
+    ∃ z, r[i]? = some z ∧ f x y = some z
+  | [], [], r, h, i, x, y, hx, _ => by simp at hx
+  | u :: a, v :: b, r, h, i, x, y, hx, hy => by
+    simp only [zipBits] at h
+    cases hf : f u v with
+    | none => simp [hf] at h
+    | some z =>
+      cases hz : zipBits f a b with
+      | none => simp [hf, hz] at h
+      | some rs =>
+        simp only [hf, hz, Option.some.injEq] at h
+        subst h
+        cases i with
+        | zero =>
+          simp only [List.getElem?_cons_zero, Option.some.injEq] at hx hy
+          subst hx hy
+          exact ⟨z, by simp, hf⟩
+        | succ j =>
+          simp only [List.getElem?_cons_succ] at hx hy ⊢
+          exact zipBits_get f a b rs hz j x y hx hy
+  | [], _ :: _, r, h, _, _, _, _, _ => by simp [zipBits] at h
+  | _ :: _, [], r, h, _, _, _, _, _ => by simp [zipBits] at h
+
+theorem describes_zip (o : BitOp) {env : Env} {a b r : List Bit} {w na nb : Nat} (Da : Describes env a w na)
+    (Db : Describes env b w nb) (h : zipBits o.f a b = some r) :
+    Describes env r w (o.g w (BitVec.ofNat w na) (BitVec.ofNat w nb)).toNat where
+  len := by rw [(zipBits_length _ _ _ _ h).2, Da.len]
+  pos := Da.pos
+  lt := (o.g w (BitVec.ofNat w na) (BitVec.ofNat w nb)).isLt
+  bit := by
+    intro i hi'
+    have ha := Da.bit i hi'
+    have hb := Db.bit i hi'
+    cases hxa : a[i]? with
+    | none => simp [hxa] at ha
+    | some x =>
+      cases hxb : b[i]? with
+      | none => simp [hxb] at hb
+      | some y =>
+        simp only [hxa, hxb, Option.bind_some] at ha hb
+        obtain ⟨z, hz, hfz⟩ := zipBits_get _ _ _ _ h i x y hxa hxb
+        rw [hz, Option.bind_some, o.hf env x y z hfz _ _ ha hb, BitVec.testBit_toNat, o.hg, BitVec.getLsbD_ofNat,
+          BitVec.getLsbD_ofNat]
+        simp [hi']
+
+theorem describes_lshr {env : Env} {a : List Bit} {wa na : Nat} (D : Describes env a wa na) (k : Nat) :
+    Describes env (a.drop k ++ List.replicate (min k a.length) (Bit.c false)) wa (BitVec.ofNat wa na >>> k).toNat where
+  len := by simp [D.len]; omega
+  pos := D.pos
+  lt := (BitVec.ofNat wa na >>> k).isLt
+  bit := by
+    intro i hi'
+    rw [List.getElem?_append, BitVec.testBit_toNat, BitVec.getLsbD_ushiftRight, BitVec.getLsbD_ofNat]
+    simp only [List.length_drop, D.len]
+    by_cases hlt : i < wa - k
+    · rw [if_pos hlt, List.getElem?_drop, D.bit (k + i) (by omega)]; simp [show k + i < wa by omega]
+    · rw [if_neg hlt, List.getElem?_replicate, if_pos (by omega)]
+      simp [bitDen, show ¬ k + i < wa by omega]
+
+theorem describes_ashr {env : Env} {a : List Bit} {wa na : Nat} (D : Describes env a wa na) (k : Nat) (m : Bit)
+    (hm : a.getLast? = some m) :
+    Describes env (a.drop k ++ List.replicate (min k a.length) m) wa ((BitVec.ofNat wa na).sshiftRight k).toNat where
+  len := by simp [D.len]; omega
+  pos := D.pos
+  lt := ((BitVec.ofNat wa na).sshiftRight k).isLt
+  bit := by
+    intro i hi'
+    have hpos := D.pos
+    have hmd : bitDen env m = some (na.testBit (wa - 1)) := by
+      have h1 := D.bit (wa - 1) (by omega)
+      rw [List.getLast?_eq_getElem?, D.len] at hm
+      rw [hm] at h1
+      simpa using h1
+    rw [List.getElem?_append, BitVec.testBit_toNat, BitVec.getLsbD_sshiftRight, BitVec.msb_eq_getLsbD_last]
+    simp only [List.length_drop, D.len, BitVec.getLsbD_ofNat]
+    by_cases hlt : i < wa - k
+    · rw [if_pos hlt, List.getElem?_drop, D.bit (k + i) (by omega)]
+      simp [show k + i < wa by omega, show ¬ wa ≤ i by omega]
+    · rw [if_neg hlt, List.getElem?_replicate, if_pos (by omega)]
+      simp [hmd, show ¬ k + i < wa by omega, show ¬ wa ≤ i by omega, show wa - 1 < wa by omega]
+
+theorem describes_shl {env : Env} {a : List Bit} {wa na : Nat} (D : Describes env a wa na) (k : Nat) :
+    Describes env (List.replicate (min k a.length) (Bit.c false) ++ a.take (a.length - k)) wa (BitVec.ofNat wa na <<< k).toNat where
+  len := by simp [D.len]; omega
+  pos := D.pos
+  lt := (BitVec.ofNat wa na <<< k).isLt
+  bit := by
+    intro i hi'
+    rw [List.getElem?_append, BitVec.testBit_toNat, BitVec.getLsbD_shiftLeft, BitVec.getLsbD_ofNat]
+    simp only [List.length_replicate, D.len]
+    by_cases hlt : i < min k wa
+    · rw [if_pos hlt, List.getElem?_replicate, if_pos hlt]
+      simp [bitDen, show i < k by omega]
+    · rw [if_neg hlt, List.getElem?_take, if_pos (by omega), D.bit (i - min k wa) (by omega)]
+      have : min k wa = k := by omega
+      simp [this, hi', show ¬ i < k by omega, show i - k < wa by omega]
+
 /-! ### the terms of a well-typed expression denote bit-vectors -/
 theorem normList_eq_map (es : List Expr) : normList es = es.map norm := by
   induction es with
@@ -147,11 +390,6 @@ theorem foldl_valConcat_err (vs : List Val) : vs.foldl valConcat .err = .err := 
   induction vs with
   | nil => rfl
   | cons v vs ih => simpa [List.foldl, valConcat] using ih
-
-theorem foldl_valConcat_bool (vs : List Val) (b : Bool) : vs.foldl valConcat (.bool b) = .err ∨ vs = [] := by
-  cases vs with
-  | nil => right; rfl
-  | cons v vs => left; simp [List.foldl, valConcat, foldl_valConcat_err]
 
 theorem foldl_valConcat_bv (vs : List Val) (v : Val) (w n : Nat) (h : vs.foldl valConcat v = .bv w n) :
     (∃ w0 n0, v = .bv w0 n0) ∧ ∀ u ∈ vs, ∃ wu nu, u = .bv wu nu := by
@@ -175,118 +413,172 @@ theorem foldl_valConcat_bv (vs : List Val) (v : Val) (w n : Nat) (h : vs.foldl v
         · exact ⟨wu, nu, rfl⟩
         · exact h2 x hx
 
-theorem good_append {env : Env} {a b : List Expr} (ha : Good env a) (hb : Good env b) : Good env (a ++ b) := by
-  intro t ht
-  rcases List.mem_append.mp ht with h | h
-  · exact ha t h
-  · exact hb t h
+theorem foldl_bvBin_bv (f) (vs : List Val) (v : Val) (w n : Nat) (h : vs.foldl (bvBin f) v = .bv w n) :
+    (∃ w0 n0, v = .bv w0 n0) ∧ ∀ u ∈ vs, ∃ wu nu, u = .bv wu nu := by
+  induction vs generalizing v with
+  | nil => simp only [List.foldl] at h; exact ⟨⟨w, n, h⟩, by simp⟩
+  | cons u vs ih =>
+    simp only [List.foldl] at h
+    obtain ⟨⟨w1, n1, h1⟩, h2⟩ := ih _ h
+    cases v with
+    | err => simp at h1
+    | bool b => simp at h1
+    | bv w0 n0 =>
+      cases u with
+      | err => simp at h1
+      | bool b => simp at h1
+      | bv wu nu =>
+        refine ⟨⟨w0, n0, rfl⟩, ?_⟩
+        intro x hx
+        simp only [List.mem_cons] at hx
+        rcases hx with rfl | hx
+        · exact ⟨wu, nu, rfl⟩
+        · exact h2 x hx
 
-mutual
-theorem norm_good (env : Env) : ∀ (e : Expr) (w n : Nat), eval env e = .bv w n → Good env (norm e).2
-  | .bvv v w', w, n, _ => by simp [norm, Good]
-  | .bvs nm w', w, n, h => by
-    intro t ht
-    simp only [norm, List.mem_singleton] at ht
-    subst ht
-    exact ⟨w, n, h⟩
-  | .boolv b, w, n, h => by simp [eval] at h
-  | .bools nm, w, n, h => by simp [eval] at h
-  | .app op args, w, n, h => by
-    have hall := normList_good env args
-    simp only [norm, normList_eq_map]
-    have hself : Good env [Expr.app op args] := by
-      intro t ht
-      simp only [List.mem_singleton] at ht
-      subst ht
-      exact ⟨w, n, h⟩
-    unfold normApp
-    split
-    · -- concat
-      rename_i hd tl heq
-      split
-      · -- all operands have bits: every operand denotes a bit-vector
-        rw [eval_app] at h
-        cases args with
-        | nil => simp at heq
-        | cons a0 rest =>
-          simp only [evalList, applyOp, foldVals] at h
-          obtain ⟨⟨w0, n0, h0⟩, hrest⟩ := foldl_valConcat_bv _ _ _ _ h
-          intro t ht
-          simp only [List.flatMap_map, List.mem_flatMap] at ht
-          obtain ⟨a, ha, hta⟩ := ht
-          have : ∃ wa na, eval env a = .bv wa na := by
-            simp only [List.mem_cons] at ha
-            rcases ha with rfl | ha
-            · exact ⟨w0, n0, h0⟩
-            · apply hrest
-              rw [evalList_eq_map]
-              exact List.mem_map_of_mem ha
-          obtain ⟨wa, na, hea⟩ := this
-          exact hall a ha wa na hea t hta
-      · exact hself
-    · -- extract
-      rename_i hi lo b ts heq
-      cases args with
-      | nil => simp at heq
-      | cons a rest =>
-        cases rest with
-        | cons _ _ => simp at heq
-        | nil =>
-          simp only [List.map_cons, List.map_nil, List.cons.injEq, and_true] at heq
-          rw [eval_app] at h
-          simp only [evalList] at h
-          cases hv : eval env a with
-          | err => simp [hv, applyOp] at h
-          | bool c => simp [hv, applyOp] at h
-          | bv wa na =>
-            have := hall a (List.mem_cons_self ..) wa na hv
-            rw [heq] at this
-            exact this
-    · -- zeroExt
-      rename_i k b ts heq
-      cases args with
-      | nil => simp at heq
-      | cons a rest =>
-        cases rest with
-        | cons _ _ => simp at heq
-        | nil =>
-          simp only [List.map_cons, List.map_nil, List.cons.injEq, and_true] at heq
-          rw [eval_app] at h
-          simp only [evalList] at h
-          cases hv : eval env a with
-          | err => simp [hv, applyOp] at h
-          | bool c => simp [hv, applyOp] at h
-          | bv wa na =>
-            have := hall a (List.mem_cons_self ..) wa na hv
-            rw [heq] at this
-            exact this
-    · -- signExt
-      rename_i k b ts heq
-      cases args with
-      | nil => simp at heq
-      | cons a rest =>
-        cases rest with
-        | cons _ _ => simp at heq
-        | nil =>
-          simp only [List.map_cons, List.map_nil, List.cons.injEq, and_true] at heq
-          rw [eval_app] at h
-          simp only [evalList] at h
-          cases hv : eval env a with
-          | err => simp [hv, applyOp] at h
-          | bool c => simp [hv, applyOp] at h
-          | bv wa na =>
-            have := hall a (List.mem_cons_self ..) wa na hv
-            rw [heq] at this
-            exact this
-    · exact hself
-theorem normList_good (env : Env) : ∀ (es : List Expr), ∀ e ∈ es, ∀ (w n : Nat), eval env e = .bv w n → Good env (norm e).2
-  | [], e, he => by simp at he
-  | a :: as, e, he => by
-    simp only [List.mem_cons] at he
-    rcases he with rfl | he
-    · exact norm_good env e
-    · exact normList_good env as e he
-end
+/-- in a node the normal form looks into, every operand of a well-typed node denotes a bit-vector -/
+theorem bitsOf_args_bv (env : Env) (op : Op) (args : List Expr) (r : List Bit)
+    (h : bitsOf op (.app op args) (args.map fun e => (norm e).1) = some r) (w n : Nat)
+    (he : eval env (.app op args) = .bv w n) : ∀ a ∈ args, ∃ wa na, eval env a = .bv wa na := by
+  rw [eval_app, evalList_eq_map] at he
+  have unary : ∀ (a : Expr), args = [a] → (∀ v, applyOp op [v] = .bv w n → ∃ wa na, v = .bv wa na) →
+      ∀ x ∈ args, ∃ wa na, eval env x = .bv wa na := by
+    intro a ha hop x hx
+    subst ha
+    simp only [List.mem_singleton] at hx
+    subst hx
+    exact hop _ (by simpa using he)
+  have nary : ∀ (f), (∀ vs : List Val, 2 ≤ vs.length → applyOp op vs = foldVals (bvBin f) vs) → 2 ≤ args.length →
+      ∀ x ∈ args, ∃ wa na, eval env x = .bv wa na := by
+    intro f hop hlen x hx
+    rw [hop _ (by simpa using hlen)] at he
+    match args, hlen with
+    | a0 :: a1 :: rest, _ =>
+      simp only [List.map_cons, foldVals] at he
+      obtain ⟨h0, hr⟩ := foldl_bvBin_bv f _ _ _ _ he
+      simp only [List.mem_cons] at hx
+      rcases hx with rfl | hx
+      · exact h0
+      · apply hr
+        rcases hx with rfl | hx
+        · simp
+        · exact List.mem_cons_of_mem _ (List.mem_map_of_mem hx)
+  have binary : ∀ (a s : Expr) (f), args = [a, s] → (∀ u v, applyOp op [u, v] = bvBin f u v) →
+      ∀ x ∈ args, ∃ wa na, eval env x = .bv wa na := by
+    intro a s f ha hop x hx
+    subst ha
+    simp only [List.map_cons, List.map_nil, hop] at he
+    cases hu : eval env a with
+    | err => simp [hu] at he
+    | bool b => simp [hu] at he
+    | bv wa na =>
+      cases hv : eval env s with
+      | err => simp [hu, hv] at he
+      | bool b => simp [hu, hv] at he
+      | bv ws ns =>
+        simp only [List.mem_cons, List.mem_nil_iff, or_false] at hx
+        rcases hx with rfl | rfl
+        · exact ⟨wa, na, hu⟩
+        · exact ⟨ws, ns, hv⟩
+  unfold bitsOf at h
+  split at h
+  · -- concat
+    rename_i hd tl heq
+    cases args with
+    | nil => simp at heq
+    | cons a0 rest =>
+      simp only [List.map_cons, applyOp, foldVals] at he
+      obtain ⟨h0, hr⟩ := foldl_valConcat_bv _ _ _ _ he
+      intro x hx
+      simp only [List.mem_cons] at hx
+      rcases hx with rfl | hx
+      · exact h0
+      · exact hr _ (List.mem_map_of_mem hx)
+  · rename_i hi lo b heq
+    cases args with
+    | nil => simp at heq
+    | cons a rest =>
+      cases rest with
+      | cons _ _ => simp at heq
+      | nil =>
+        refine unary a rfl ?_
+        intro v hv
+        cases v with
+        | err => simp [applyOp] at hv
+        | bool c => simp [applyOp] at hv
+        | bv wa na => exact ⟨wa, na, rfl⟩
+  · rename_i k b heq
+    cases args with
+    | nil => simp at heq
+    | cons a rest =>
+      cases rest with
+      | cons _ _ => simp at heq
+      | nil =>
+        refine unary a rfl ?_
+        intro v hv
+        cases v with
+        | err => simp [applyOp] at hv
+        | bool c => simp [applyOp] at hv
+        | bv wa na => exact ⟨wa, na, rfl⟩
+  · rename_i k b heq
+    cases args with
+    | nil => simp at heq
+    | cons a rest =>
+      cases rest with
+      | cons _ _ => simp at heq
+      | nil =>
+        refine unary a rfl ?_
+        intro v hv
+        cases v with
+        | err => simp [applyOp] at hv
+        | bool c => simp [applyOp] at hv
+        | bv wa na => exact ⟨wa, na, rfl⟩
+  · rename_i b heq
+    cases args with
+    | nil => simp at heq
+    | cons a rest =>
+      cases rest with
+      | cons _ _ => simp at heq
+      | nil =>
+        refine unary a rfl ?_
+        intro v hv
+        cases v with
+        | err => simp [applyOp] at hv
+        | bool c => simp [applyOp] at hv
+        | bv wa na => exact ⟨wa, na, rfl⟩
+  · rename_i b0 r1 rest heq
+    refine nary (fun _ x y => x &&& y) ?_ ?_
+    · intro vs hvs
+      match vs, hvs with
+      | a :: b :: l, _ => rfl
+    · have := congrArg List.length heq
+      simp at this
+      omega
+  · rename_i b0 r1 rest heq
+    refine nary (fun _ x y => x ||| y) ?_ ?_
+    · intro vs hvs
+      match vs, hvs with
+      | a :: b :: l, _ => rfl
+    · have := congrArg List.length heq
+      simp at this
+      omega
+  · rename_i b0 r1 rest heq
+    refine nary (fun _ x y => x ^^^ y) ?_ ?_
+    · intro vs hvs
+      match vs, hvs with
+      | a :: b :: l, _ => rfl
+    · have := congrArg List.length heq
+      simp at this
+      omega
+  · rename_i a sb heq
+    obtain ⟨a', s', rfl, _, _⟩ := map_eq_two _ heq
+    exact binary a' s' (fun _ x y => x >>> y) rfl (fun _ _ => rfl)
+  · rename_i a sb heq
+    obtain ⟨a', s', rfl, _, _⟩ := map_eq_two _ heq
+    exact binary a' s' (fun _ x y => BitVec.sshiftRight' x y) rfl (fun _ _ => rfl)
+  · rename_i a sb heq
+    obtain ⟨a', s', rfl, _, _⟩ := map_eq_two _ heq
+    exact binary a' s' (fun _ x y => bvShl x y) rfl (fun _ _ => rfl)
+  · simp at h
 
 /-! ### the bits of an expression describe its value -/
 def Sound1 (env : Env) (e : Expr) : Prop :=
@@ -332,6 +624,245 @@ theorem concat_fold (env : Env) (es : List Expr) (hs : ∀ e ∈ es, Sound1 env 
       simp only [evalList, List.foldl, hee, valConcat]
       exact hf
 
+theorem foldBits_none (f) (l : List (Option (List Bit))) : foldBits f l none = none := by
+  cases l with
+  | nil => rfl
+  | cons a l => cases a <;> rfl
+
+theorem bitwise_fold (o : BitOp) (env : Env) (es : List Expr) (hs : ∀ e ∈ es, Sound1 env e)
+    (hg : Good env (es.flatMap fun e => (norm e).2)) (accb : List Bit) (wacc nacc : Nat) (r : List Bit)
+    (hr : foldBits o.f (es.map fun e => (norm e).1) (some accb) = some r) (D : Describes env accb wacc nacc) :
+    ∃ n, (evalList env es).foldl (bvBin o.g) (.bv wacc nacc) = .bv wacc n ∧ Describes env r wacc n := by
+  induction es generalizing accb nacc with
+  | nil =>
+    simp only [List.map_nil, foldBits, Option.some.injEq] at hr
+    subst hr
+    exact ⟨nacc, by simp [evalList], D⟩
+  | cons e es ih =>
+    simp only [List.map_cons] at hr
+    cases hb : (norm e).1 with
+    | none => simp [hb, foldBits] at hr
+    | some b =>
+      simp only [hb, foldBits] at hr
+      cases hz : zipBits o.f accb b with
+      | none => simp [hz, foldBits_none] at hr
+      | some acc' =>
+        rw [hz] at hr
+        have hge : Good env (norm e).2 := fun t ht => hg t (by simp only [List.flatMap_cons]; exact List.mem_append_left _ ht)
+        have hgs : Good env (es.flatMap fun e => (norm e).2) :=
+          fun t ht => hg t (by simp only [List.flatMap_cons]; exact List.mem_append_right _ ht)
+        obtain ⟨we, ne, hee, De⟩ := hs e (List.mem_cons_self ..) b hb hge
+        have hlen := (zipBits_length _ _ _ _ hz).1
+        have hww : we = wacc := by rw [← De.len, ← D.len, hlen]
+        subst hww
+        have Dacc := describes_zip o D De hz
+        obtain ⟨n, hf, Df⟩ := ih (fun x hx => hs x (List.mem_cons_of_mem _ hx)) hgs acc' _ hr Dacc
+        refine ⟨n, ?_, Df⟩
+        simp only [evalList, List.foldl, hee]
+        rw [show bvBin o.g (.bv we nacc) (.bv we ne) = .bv we (o.g we (BitVec.ofNat we nacc) (BitVec.ofNat we ne)).toNat by
+          simp [bvBin, D.pos]]
+        exact hf
+
+theorem nary_sound (o : BitOp) (env : Env) (op : Op) (hop : ∀ a b l, applyOp op (a :: b :: l) = foldVals (bvBin o.g) (a :: b :: l))
+    (args : List Expr) (hall : ∀ a ∈ args, Sound1 env a) (hg : Good env (args.flatMap fun e => (norm e).2))
+    (b0 : List Bit) (r1 : Option (List Bit)) (rest : List (Option (List Bit)))
+    (heq : (args.map fun e => (norm e).1) = some b0 :: r1 :: rest) (r : List Bit)
+    (h : foldBits o.f (r1 :: rest) (some b0) = some r) :
+    ∃ w n, eval env (.app op args) = .bv w n ∧ Describes env r w n := by
+  obtain ⟨a0, a1, more, rfl, h0, h1, hrest⟩ := map_eq_two_plus _ heq
+  · have hg0 : Good env (norm a0).2 := fun t ht => hg t (by simp only [List.flatMap_cons]; exact List.mem_append_left _ ht)
+    have hgr : Good env ((a1 :: more).flatMap fun e => (norm e).2) :=
+      fun t ht => hg t (by rw [List.flatMap_cons]; exact List.mem_append_right _ ht)
+    obtain ⟨w0, n0, he0, D0⟩ := hall a0 (List.mem_cons_self ..) b0 h0 hg0
+    obtain ⟨n, hf, Df⟩ := bitwise_fold o env (a1 :: more) (fun x hx => hall x (List.mem_cons_of_mem _ hx)) hgr b0 w0 n0 r
+      (by simp only [List.map_cons, h1, hrest]; exact h) D0
+    refine ⟨w0, n, ?_, Df⟩
+    rw [eval_app]
+    simp only [evalList, hop, foldVals, he0]
+    simpa [evalList] using hf
+
+theorem shift_operands (env : Env) (op : Op) (args : List Expr) (hall : ∀ a ∈ args, Sound1 env a)
+    (hg : Good env (args.flatMap fun e => (norm e).2)) (a : List Bit) (sb : List Bit)
+    (heq : (args.map fun e => (norm e).1) = [some a, some sb]) (k ws : Nat)
+    (hs : shiftAmt (.app op args) = some (k, ws)) (hws : ws = a.length) :
+    ∃ (e : Expr) (v na : Nat), args = [e, .bvv v ws] ∧ k = v % 2 ^ ws ∧ eval env e = .bv ws na ∧ Describes env a ws na ∧
+      eval env (.bvv v ws) = .bv ws (v % 2 ^ ws) := by
+  obtain ⟨e, s, rfl, heq1, heq2⟩ := map_eq_two _ heq
+  · have heq : (norm e).1 = some a ∧ (norm s).1 = some sb := ⟨heq1, heq2⟩
+    cases s with
+    | bvv v w' =>
+      simp only [shiftAmt, Option.some.injEq, Prod.mk.injEq] at hs
+      obtain ⟨hk, rfl⟩ := hs
+      have hg0 : Good env (norm e).2 := fun t ht => hg t (by simp only [List.flatMap_cons]; exact List.mem_append_left _ ht)
+      obtain ⟨we, ne, hee, De⟩ := hall e (List.mem_cons_self ..) a heq.1 hg0
+      have : we = w' := by rw [← De.len, ← hws]
+      subst this
+      refine ⟨e, v, ne, rfl, hk.symm, hee, De, ?_⟩
+      simp [eval, De.pos]
+    | bvs _ _ => simp [shiftAmt] at hs
+    | boolv _ => simp [shiftAmt] at hs
+    | bools _ => simp [shiftAmt] at hs
+    | app _ _ => simp [shiftAmt] at hs
+
+theorem bitsOf_sound (env : Env) (op : Op) (args : List Expr) (r : List Bit)
+    (h : bitsOf op (.app op args) (args.map fun e => (norm e).1) = some r) (hall : ∀ a ∈ args, Sound1 env a)
+    (hg : Good env (args.flatMap fun e => (norm e).2)) : ∃ w n, eval env (.app op args) = .bv w n ∧ Describes env r w n := by
+  have one : ∀ (b : List Bit), (args.map fun e => (norm e).1) = [some b] →
+      ∃ a wa na, args = [a] ∧ eval env a = .bv wa na ∧ Describes env b wa na := by
+    intro b heq
+    obtain ⟨a, rfl, heq'⟩ := map_eq_one _ heq
+    · have heq := heq'
+      have hg1 : Good env (norm a).2 := fun t ht => hg t (by simp [List.flatMap_cons, ht])
+      obtain ⟨wa, na, hea, Da⟩ := hall a (List.mem_cons_self ..) b heq hg1
+      exact ⟨a, wa, na, rfl, hea, Da⟩
+  unfold bitsOf at h
+  split at h
+  · -- concat
+    rename_i hd tl heq
+    cases args with
+    | nil => simp at heq
+    | cons a0 rest =>
+      simp only [List.map_cons] at h
+      cases hb0 : (norm a0).1 with
+      | none => simp [hb0, concatBits] at h
+      | some b0 =>
+        simp only [hb0, concatBits, Option.map_eq_some_iff] at h
+        obtain ⟨r', hr', rfl⟩ := h
+        have hg0 : Good env (norm a0).2 := fun t ht => hg t (by simp only [List.flatMap_cons]; exact List.mem_append_left _ ht)
+        have hgr : Good env (rest.flatMap fun e => (norm e).2) :=
+          fun t ht => hg t (by simp only [List.flatMap_cons]; exact List.mem_append_right _ ht)
+        obtain ⟨w0, n0, he0, D0⟩ := hall a0 (List.mem_cons_self ..) b0 hb0 hg0
+        obtain ⟨w, n, hf, Df⟩ := concat_fold env rest (fun x hx => hall x (List.mem_cons_of_mem _ hx)) hgr b0 w0 n0 r' hr' D0
+        refine ⟨w, n, ?_, Df⟩
+        rw [eval_app]
+        simp only [evalList, applyOp, foldVals, he0]
+        exact hf
+  · -- extract
+    rename_i hi lo b heq
+    obtain ⟨a, wa, na, rfl, hea, Da⟩ := one b heq
+    split at h
+    · rename_i hc
+      simp only [Option.some.injEq] at h
+      subst h
+      rw [Da.len] at hc
+      refine ⟨hi - lo + 1, _, ?_, describes_extract Da hi lo hc.1 hc.2⟩
+      rw [eval_app]
+      simp [evalList, hea, applyOp, hc]
+    · simp at h
+  · -- zeroExt
+    rename_i k b heq
+    obtain ⟨a, wa, na, rfl, hea, Da⟩ := one b heq
+    simp only [Option.some.injEq] at h
+    subst h
+    refine ⟨wa + k, _, ?_, describes_zext Da k⟩
+    rw [eval_app]
+    simp [evalList, hea, applyOp, Da.pos]
+  · -- signExt
+    rename_i k b heq
+    obtain ⟨a, wa, na, rfl, hea, Da⟩ := one b heq
+    split at h
+    · rename_i m hm
+      simp only [Option.some.injEq] at h
+      subst h
+      refine ⟨wa + k, _, ?_, describes_sext Da k m hm⟩
+      rw [eval_app]
+      simp [evalList, hea, applyOp, Da.pos]
+    · simp at h
+  · -- bnot
+    rename_i b heq
+    obtain ⟨a, wa, na, rfl, hea, Da⟩ := one b heq
+    simp only [Option.some.injEq] at h
+    subst h
+    refine ⟨wa, _, ?_, describes_not Da⟩
+    rw [eval_app]
+    simp [evalList, hea, applyOp, bvUn, Da.pos]
+  · rename_i b0 r1 rest heq
+    exact nary_sound opAnd env .band (fun _ _ _ => rfl) args hall hg b0 r1 rest heq r h
+  · rename_i b0 r1 rest heq
+    exact nary_sound opOr env .bor (fun _ _ _ => rfl) args hall hg b0 r1 rest heq r h
+  · rename_i b0 r1 rest heq
+    exact nary_sound opXor env .bxor (fun _ _ _ => rfl) args hall hg b0 r1 rest heq r h
+  · -- lshr
+    rename_i a sb heq
+    split at h
+    · rename_i k ws hs
+      split at h
+      · rename_i hws
+        simp only [Option.some.injEq] at h
+        subst h
+        obtain ⟨e, v, na, rfl, hk, hee, De, hev⟩ := shift_operands env .lshr args hall hg a sb heq k ws hs hws
+        refine ⟨ws, _, ?_, describes_lshr De k⟩
+        rw [eval_app]
+        simp only [evalList, hee, hev, applyOp, bvBin, De.pos, and_self, if_true, BitVec.ushiftRight_eq', BitVec.toNat_ofNat]
+        rw [Nat.mod_mod, ← hk]
+      · simp at h
+    · simp at h
+  · -- ashr
+    rename_i a sb heq
+    split at h
+    · rename_i k ws m hs hm
+      split at h
+      · rename_i hws
+        simp only [Option.some.injEq] at h
+        subst h
+        obtain ⟨e, v, na, rfl, hk, hee, De, hev⟩ := shift_operands env .ashr args hall hg a sb heq k ws hs hws
+        refine ⟨ws, _, ?_, describes_ashr De k m hm⟩
+        rw [eval_app]
+        simp only [evalList, hee, hev, applyOp, bvBin, De.pos, and_self, if_true, BitVec.sshiftRight_eq', BitVec.toNat_ofNat]
+        rw [Nat.mod_mod, ← hk]
+      · simp at h
+    · simp at h
+  · -- shl
+    rename_i a sb heq
+    split at h
+    · rename_i k ws hs
+      split at h
+      · rename_i hws
+        simp only [Option.some.injEq] at h
+        subst h
+        obtain ⟨e, v, na, rfl, hk, hee, De, hev⟩ := shift_operands env .shl args hall hg a sb heq k ws hs hws
+        refine ⟨ws, _, ?_, describes_shl De k⟩
+        rw [eval_app]
+        simp only [evalList, hee, hev, applyOp, bvBin, De.pos, and_self, if_true, bvShl_eq, BitVec.shiftLeft_eq', BitVec.toNat_ofNat]
+        rw [Nat.mod_mod, ← hk]
+      · simp at h
+    · simp at h
+  · simp at h
+
+mutual
+theorem norm_good (env : Env) : ∀ (e : Expr) (w n : Nat), eval env e = .bv w n → Good env (norm e).2
+  | .bvv v w', w, n, _ => by simp [norm, Good]
+  | .bvs nm w', w, n, h => by
+    intro t ht
+    simp only [norm, List.mem_singleton] at ht
+    subst ht
+    exact ⟨w, n, h⟩
+  | .boolv b, w, n, h => by simp [eval] at h
+  | .bools nm, w, n, h => by simp [eval] at h
+  | .app op args, w, n, h => by
+    have hall := normList_good env args
+    simp only [norm, normList_eq_map, normApp, List.map_map]
+    split
+    · rename_i r hr
+      have hbv := bitsOf_args_bv env op args r (by simpa [Function.comp_def] using hr) w n h
+      intro t ht
+      simp only [List.flatMap_map, List.mem_flatMap] at ht
+      obtain ⟨a, ha, hta⟩ := ht
+      obtain ⟨wa, na, hea⟩ := hbv a ha
+      exact hall a ha wa na hea t hta
+    · intro t ht
+      simp only [List.mem_singleton] at ht
+      subst ht
+      exact ⟨w, n, h⟩
+theorem normList_good (env : Env) : ∀ (es : List Expr), ∀ e ∈ es, ∀ (w n : Nat), eval env e = .bv w n → Good env (norm e).2
+  | [], e, he => by simp at he
+  | a :: as, e, he => by
+    simp only [List.mem_cons] at he
+    rcases he with rfl | he
+    · exact norm_good env e
+    · exact normList_good env as e he
+end
+
 mutual
 theorem norm_sound (env : Env) : ∀ (e : Expr), Sound1 env e
   | .bvv v w => by
@@ -351,106 +882,15 @@ theorem norm_sound (env : Env) : ∀ (e : Expr), Sound1 env e
   | .app op args => by
     have hall := normList_sound env args
     intro bs hb hg
-    simp only [norm, normList_eq_map] at hb hg
-    generalize hN : normApp op (.app op args) (args.map norm) = N at hb hg
-    unfold normApp at hN
-    split at hN
-    · -- concat
-      rename_i hd tl heq
-      split at hN
-      · rename_i r hr
-        subst hN
-        simp only [Option.some.injEq] at hb
-        subst hb
-        cases args with
-        | nil => simp at heq
-        | cons a0 rest =>
-          simp only [List.map_cons, List.map_map] at hr
-          cases hb0 : (norm a0).1 with
-          | none => simp [hb0, concatBits] at hr
-          | some b0 =>
-            simp only [hb0, concatBits, Option.map_eq_some_iff] at hr
-            obtain ⟨r', hr', rfl⟩ := hr
-            have hg0 : Good env (norm a0).2 := fun t ht => hg t (by simp only [List.map_cons, List.flatMap_cons]; exact List.mem_append_left _ ht)
-            have hgr : Good env (rest.flatMap fun e => (norm e).2) := by
-              intro t ht
-              apply hg t
-              simp only [List.map_cons, List.flatMap_cons, List.flatMap_map]
-              exact List.mem_append_right _ ht
-            obtain ⟨w0, n0, he0, D0⟩ := hall a0 (List.mem_cons_self ..) b0 hb0 hg0
-            obtain ⟨w, n, hf, Df⟩ := concat_fold env rest (fun x hx => hall x (List.mem_cons_of_mem _ hx)) hgr b0 w0 n0 r'
-              (by simpa [Function.comp_def] using hr') D0
-            refine ⟨w, n, ?_, Df⟩
-            rw [eval_app]
-            simp only [evalList, applyOp, foldVals, he0]
-            exact hf
-      · subst hN
-        exact sound_opaque env _ bs hb hg
-    · -- extract
-      rename_i hi lo b ts heq
-      subst hN
-      cases args with
-      | nil => simp at heq
-      | cons a rest =>
-        cases rest with
-        | cons _ _ => simp at heq
-        | nil =>
-          simp only [List.map_cons, List.map_nil, List.cons.injEq, and_true] at heq
-          have hb1 : (norm a).1 = some b := by rw [heq]
-          have hg1 : Good env (norm a).2 := by rw [heq]; exact hg
-          obtain ⟨wa, na, hea, Da⟩ := hall a (List.mem_cons_self ..) b hb1 hg1
-          simp only at hb
-          split at hb
-          · rename_i hc
-            simp only [Option.some.injEq] at hb
-            subst hb
-            rw [Da.len] at hc
-            refine ⟨hi - lo + 1, _, ?_, describes_extract Da hi lo hc.1 hc.2⟩
-            rw [eval_app]
-            simp [evalList, hea, applyOp, hc]
-          · simp at hb
-    · -- zeroExt
-      rename_i k b ts heq
-      subst hN
-      cases args with
-      | nil => simp at heq
-      | cons a rest =>
-        cases rest with
-        | cons _ _ => simp at heq
-        | nil =>
-          simp only [List.map_cons, List.map_nil, List.cons.injEq, and_true] at heq
-          have hb1 : (norm a).1 = some b := by rw [heq]
-          have hg1 : Good env (norm a).2 := by rw [heq]; exact hg
-          obtain ⟨wa, na, hea, Da⟩ := hall a (List.mem_cons_self ..) b hb1 hg1
-          simp only [Option.some.injEq] at hb
-          subst hb
-          refine ⟨wa + k, _, ?_, describes_zext Da k⟩
-          rw [eval_app]
-          simp [evalList, hea, applyOp, Da.pos]
-    · -- signExt
-      rename_i k b ts heq
-      subst hN
-      cases args with
-      | nil => simp at heq
-      | cons a rest =>
-        cases rest with
-        | cons _ _ => simp at heq
-        | nil =>
-          simp only [List.map_cons, List.map_nil, List.cons.injEq, and_true] at heq
-          have hb1 : (norm a).1 = some b := by rw [heq]
-          have hg1 : Good env (norm a).2 := by rw [heq]; exact hg
-          obtain ⟨wa, na, hea, Da⟩ := hall a (List.mem_cons_self ..) b hb1 hg1
-          simp only at hb
-          split at hb
-          · rename_i m hm
-            simp only [Option.some.injEq] at hb
-            subst hb
-            refine ⟨wa + k, _, ?_, describes_sext Da k m hm⟩
-            rw [eval_app]
-            simp [evalList, hea, applyOp, Da.pos]
-          · simp at hb
-    · subst hN
-      exact sound_opaque env _ bs hb hg
+    simp only [norm, normList_eq_map, normApp, List.map_map] at hb hg
+    generalize hN : bitsOf op (.app op args) (args.map ((fun x => x.1) ∘ norm)) = N at hb hg
+    cases N with
+    | some r =>
+      simp only [Option.some.injEq] at hb
+      subst hb
+      exact bitsOf_sound env op args r (by simpa [Function.comp_def] using hN) hall
+        (by simpa [List.flatMap_map] using hg)
+    | none => exact sound_opaque env _ bs hb hg
 theorem normList_sound (env : Env) : ∀ (es : List Expr), ∀ e ∈ es, Sound1 env e
   | [], e, he => by simp at he
   | a :: as, e, he => by
